@@ -9,25 +9,47 @@ def run(tier, seed):
     import formulas.excel as EX
     ck.encode(EX.ExcelModel.from_ranges, EX.ExcelModel.complete, EX.ExcelModel.add_sheet, EX.ExcelModel.add_cell,
               EX.ExcelModel.compile_cell, EX.ExcelModel.finish)
-    ck.assume('the workbook is a real .xlsx file written by the harness with openpyxl (two sheets referring to each other, whole-column and whole-row references, a defined name, a two-cell array formula and cells reading its spilled cell); two constants and the set of requested outputs are boolean selectors; every path loads the file twice (fully, and from the chosen outputs) and calculates natively',
+    ck.assume('the workbook is a real .xlsx file written by the harness with openpyxl (two sheets referring to each other, whole-column and whole-row references, a defined name, a two-cell array formula, cells reading its spilled cell alone or inside a larger rectangle, and a second workbook whose sheet has the same title but fewer used rows); two constants and the set of requested outputs are boolean selectors; every path loads the file twice (fully, and from the chosen outputs) and calculates natively',
               'completing and finishing the partial model again must leave its node set and its results unchanged')
-    ck.out_of_scope('references between workbooks (external-link parts of the file format are not produced by the harness)', 'workbooks other than the harness template',
+    ck.out_of_scope('formulas that refer to ANOTHER workbook (external-link parts of the file format are not produced by the harness; the two workbooks are loaded side by side)', 'output sets other than the listed ones (15 single outputs, 11 chosen combinations, and in the thorough tier a seeded sample up to 256 sets)', 'whole-column references beyond the few listed paths (the library assembles all 1048576 cells of the column: 10 s and several GB per model)', 'workbooks other than the harness template',
                     'symbolic contents (openpyxl / schedula cannot carry symbolic values)')
     quick = tier == 'quick'
     src = open(os.path.join(ROOT, 'harness', 'c15_ranges.py')).read()
-    masks = [1, 2, 4, 8, 16, 32, 64, 128, 256, 512, 1024, 3, 96, 640, 1025, 45, 2047]
+    nout = 15
+    ORDER = 1 << nout                      # bit 15: the request is made in reverse order
+    masks = [1 << b for b in range(nout)]
+    masks += [3, 96, 640, 1025, 45, (1 << nout) - 1, ((1 << nout) - 1) | ORDER, (3 << 13) | 2 | ORDER, (3 << 13) | 2,
+              (1 << 12) | (1 << 10), (1 << 11) | 16 | ORDER]
+    if not quick:
+        import random
+        rnd = random.Random(seed)
+        while len(masks) < 256:
+            m = rnd.getrandbits(nout + 1)
+            if m & (ORDER - 1) and m not in masks:
+                masks.append(m)
+    groups = 4 if quick else 8
+    both = 2 | (1 << 13)
+    colmasks = (2, 1 << 13, both, both | ORDER) + (() if quick else ((1 << nout) - 1, ((1 << nout) - 1) | ORDER, 2 | 1 << 9, both | 64))
     hs, batch = [], Batch()
     try:
         for a in ((0, 4) if quick else range(8)):
-            s = src.replace('__FIX_A__', str(a)).replace('__MASKS__', repr(tuple(masks[:12] if quick else masks)) if quick else
-                                                        ('None' if a in (0, 4) else repr(tuple(masks))))
-            if quick:
-                s = s.replace('pre: sel(m0, m1, m2, m3, m4, m5, m6, m7, m8, m9, m10) > 0', 'pre: sel(m0, m1, m2, m3, m4, m5, m6, m7, m8, m9, m10) > 0 and sel(j0, j1, j2) in (1, 4)')
-            h = Harness(ck, 'c15_ranges_a%d' % a, s); hs.append(h)
-            batch.add(h, 900 if quick else 5000, only=['ranges_ok'], ppt=300,
-                      bounds='DATA!A1 = pool value #%d, DATA!A2 from %s, %s of the 11 formula outputs' % (
-                          a, '2 pool values' if quick else 'all 8 pool values',
-                          '12 output sets' if quick else ('all 2047 output sets' if a in (0, 4) else '17 output sets')))
+            for g in range(groups):
+                mg = tuple(masks[g::groups])
+                s = src.replace('__FIX_A__', str(a)).replace('__MASKS__', repr(mg)).replace('__WHOLE__', 'row')
+                h = Harness(ck, 'c15_ranges_a%d_g%d' % (a, g), s); hs.append(h)
+                batch.add(h, 600 if quick else 3000, only=['ranges_ok'], ppt=200,
+                          bounds='whole-ROW references; DATA!A1 = pool value #%d, DATA!A2 any of 8 pool values, %d of the %d listed output sets (of 15 formula outputs in two workbooks, either request order)' % (
+                              a, len(mg), len(masks)))
+        # whole-COLUMN references assemble a million cells per model (10 s and 2-5 GB a path): few paths
+        for a in ((0,) if quick else (0, 4)):
+            for g in range(0, len(colmasks), 2):
+                cm = colmasks[g:g + 2]
+                s = src.replace('__FIX_A__', str(a)).replace('__MASKS__', repr(cm)).replace('__WHOLE__', 'col')
+                s = s.replace('< len(MASKS)', '< len(MASKS) and sel(j0, j1, j2) %s' % ('== 1' if quick else 'in (1, 4)'))
+                h = Harness(ck, 'c15_ranges_col_a%d_g%d' % (a, g // 2), s); hs.append(h)
+                batch.add(h, 600 if quick else 3000, only=['ranges_ok'], ppt=300,
+                          bounds='whole-COLUMN references; DATA!A1 = pool value #%d, DATA!A2 from %d pool value(s), output sets %r around the whole-column cells of the two workbooks' % (
+                              a, 1 if quick else 2, cm))
         batch.run()
     finally:
         for h in hs:
